@@ -9,6 +9,9 @@
      sig.recover compact msg hash        -> OK:K;<pubkey> | OK:E
      sig.recover_digest compact digest   -> OK:K;<pubkey> | OK:E
      sig.sign_recover key comp msg hash rk msg2 hash2 -> OK:<same>;<pubkey> | OK:E
+     sig.compact_der der info            -> OK:<65 bytes>            (object without recovery info; info = n | <recid><c>)
+     sig.signed key comp msg hash rk info msg2 hash2 -> OK:<65 bytes>;<K<pubkey>|E>;<v>   (the signer's in-memory object)
+     sig.recover_der der msg hash        -> OK:E;E                   (recovery without recovery info)
      sighashsig.roundtrip r s flag       -> OK:<bytes>;<bytes'>
      sighashsig.parse bytes              -> OK:<bytes'>
    Specification column (Spec/EcdsaSpec.v): round trips give back the same r, s (flag, recovery id, compression marker);
@@ -95,7 +98,75 @@ Definition run_sign_recover (kb : bytes) (c : bool) (msg : bytes) (h : signing_h
           if bytes_eqb msg msg2 && Bool.eqb (is_double h) (is_double h2) then
             "OK:1;" +++ show_bytes (sec1_encode c (pubkey_fast (be_Z kb)))
           else "OK:0;*~OK:E"
-        else "-") "-".
+        else "ERR") "-".
+
+(* "n" -> None, "<recid><c>" -> Some info *)
+Definition info_of (s : string) : option (option recinfo) :=
+  match s with
+  | "n" => Some None
+  | String a (String b EmptyString) =>
+      match N_of_dec (String a EmptyString), flag_of (String b EmptyString) with
+      | Some id, Some c => if (id <=? 3)%N then Some (Some (recinfo_of id c)) else None
+      | _, _ => None
+      end
+  | _ => None
+  end.
+Definition info_header (o : option recinfo) (carried : recinfo) : N :=
+  match o with
+  | Some i => compact_header i
+  | None => compact_header carried
+  end.
+
+(* an object WITHOUT recovery info (from_der): to_compact_bytes(None) uses the default info (header 27),
+   to_compact_bytes(Some info) the given one; r and s are the parsed ones *)
+Definition run_compact_der (der : bytes) (info : option recinfo) : string :=
+  out3 (render (do sg <- from_der_impl der; Ok (show_bytes (to_compact_bytes sg info))))
+       (match spec_from_der der with
+        | Some (r, s) => "OK:" +++ show_bytes (n2b (info_header info default_recinfo) :: be32 r ++ be32 s)
+        | None => "ERR"
+        end) "-".
+
+(* the in-memory object returned by the signer, without a serialise/parse round trip:
+   to_compact_bytes(info) — an explicit info wins over the carried one, None uses the carried one (signer's
+   compression marker, recovery bit that leads back to the key); recover_public_key(msg2, hash2) must give the
+   signer's key in the signer's form for the same message and hash and must not give it otherwise;
+   verify_message(msg2, own key) is true exactly for the same message when the signing hash was SHA-256 *)
+Definition run_signed (kb : bytes) (c : bool) (msg : bytes) (h : signing_hash) (rk : bool) (info : option recinfo)
+           (msg2 : bytes) (h2 : signing_hash) : string :=
+  let own := sec1_encode c (pubkey_fast (be_Z kb)) in
+  out3 (render (do k <- key_of kb c;
+                do sg <- sign_with_deterministic_k FP k msg h rk;
+                do rec <- match get_public_key FP sg msg2 h2 with
+                          | Ok p => Ok ("K" +++ show_bytes (pk_point p))
+                          | Err => Ok "E"
+                          | Panic => Panic
+                          end;
+                Ok (show_bytes (to_compact_bytes sg info) +++ ";" +++ rec +++ ";"
+                    +++ bit (verify_message FP sg msg2 (to_public_key FP k)))))
+       (if valid_key kb then
+          match spec_sign_det prim_sign_fast (be_Z kb) (is_double h) msg rk with
+          | Some (r, s) =>
+              let same := bytes_eqb msg msg2 && Bool.eqb (is_double h) (is_double h2) in
+              let v := bit (bytes_eqb msg msg2 && negb (is_double h)) in
+              let body := show_bytes (be32 r ++ be32 s) in
+              let hdrs := match info with
+                          | Some i => [compact_header i]
+                          | None => if c then [31; 32]%N else [27; 28]%N
+                          end in
+              if same then
+                join "~" (map (fun hd => "OK:" +++ show_bytes [n2b hd] +++ body +++ ";K" +++ show_bytes own +++ ";" +++ v) hdrs)
+              else "-"
+          | None => "ERR"
+          end
+        else "ERR") "-".
+
+(* recovery on an object without recovery info: an error from both functions *)
+Definition run_recover_der (der msg : bytes) (h : signing_hash) : string :=
+  out3 (render (do sg <- from_der_impl der;
+                do a <- match get_public_key FP sg msg h with Ok _ => Ok "K" | Err => Ok "E" | Panic => Panic end;
+                do b <- match get_public_key_from_digest FP sg msg with Ok _ => Ok "K" | Err => Ok "E" | Panic => Panic end;
+                Ok (a +++ ";" +++ b)))
+       (match spec_from_der der with Some _ => "OK:E;E" | None => "ERR" end) "-".
 
 Definition run_sighashsig_roundtrip (r s : bytes) (f : N) : string :=
   out3 (render (do sg <- sig_of r s;
@@ -138,6 +209,22 @@ Definition run (op : string) (args : list string) : string :=
       match expand k, flag_of c, expand m, hash_of h, flag_of rk, expand m2, hash_of h2 with
       | Some kb, Some cb, Some mb, Some hh, Some rkb, Some mb2, Some hh2 => run_sign_recover kb cb mb hh rkb mb2 hh2
       | _, _, _, _, _, _, _ => "BADARG"
+      end
+  | "sig.compact_der", [d; i] =>
+      match expand d, info_of i with Some db, Some info => run_compact_der db info | _, _ => "BADARG" end
+  | "sig.signed", [k; c; m; h; rk; i; m2; h2] =>
+      match expand k, flag_of c, expand m, hash_of h, flag_of rk with
+      | Some kb, Some cb, Some mb, Some hh, Some rkb =>
+          match info_of i, expand m2, hash_of h2 with
+          | Some info, Some mb2, Some hh2 => run_signed kb cb mb hh rkb info mb2 hh2
+          | _, _, _ => "BADARG"
+          end
+      | _, _, _, _, _ => "BADARG"
+      end
+  | "sig.recover_der", [d; m; h] =>
+      match expand d, expand m, hash_of h with
+      | Some db, Some mb, Some hh => run_recover_der db mb hh
+      | _, _, _ => "BADARG"
       end
   | "sighashsig.roundtrip", [r; s; f] =>
       match expand r, expand s, N_of_dec f with
